@@ -242,7 +242,6 @@ theorem pow874_le (m B : Nat) (hm : 2 ^ 34 ≤ m) (h : 2 ^ 874 < (m + 1) * 2 ^ B
     have h2 : 2 ^ B ≤ m * 2 ^ B := Nat.le_mul_of_pos_left _ (by have := two_pow_pos 34; omega)
     exact Nat.le_trans h1 h2
 
-set_option maxHeartbeats 1000000 in
 /-- positive `q`: finite result, error at most half the quantum `Qn` of the result's binade; `Qn ≤ 2^(T−24)` for a bound
 `q < 2^(T−1000)`, and `2^23·Qn ≤ q·2^1000` in the normal range -/
 theorem roundF32_pos_gen (q : Rat) (hq : 0 < q) (hk : Nat.log2 q.den + 34 - Nat.log2 q.num.natAbs ≤ 999) (K : Nat)
